@@ -77,6 +77,7 @@ func RunC16(r *report.Run, b Bins, tier string, seed int64) {
 	cases = append(cases, IllegalCases(rng, "i")...)
 	cases = append(cases, TrickyCases(rng, "t")...)
 	cases = append(cases, MultiFileCases(rng, "m")...)
+	cases = append(cases, ImportNameCases(rng, "n")...)
 	for i := range cases {
 		rebase(&cases[i], root)
 	}
